@@ -27,7 +27,7 @@ func init() {
 		Doc: "the group matcher excludes an env-backed option only after a match that recorded no value for it", Run: mat6})
 	register(&Rule{ID: "MAT-7", Props: []string{"C10", "C11", "C02", "C01"}, Floor: 6,
 		Doc: "a foreign occurrence is skipped over exactly the tokens an own occurrence of that form consumes; an own match reports the number of tokens it dropped", Run: mat7})
-	register(&Rule{ID: "MAT-8", Props: []string{"C10", "C19", "C01", "C02"}, Floor: 3,
+	register(&Rule{ID: "MAT-8", Props: []string{"C10", "C19", "C01", "C02", "C13"}, Floor: 3,
 		Doc: "sibling guards: own option only; empty '=' value is no match; separate value starting with '-' is no match; a flag (IsBool of the looked-up option) records \"true\"", Run: mat8})
 	register(&Rule{ID: "MAT-11", Props: []string{"C11", "C01"}, Floor: 4,
 		Doc: "group retry: (false, input) if the first try fails, else try again on each new vector until a try fails, returning the last vector", Run: mat11})
@@ -919,6 +919,87 @@ func mat7(c *Ctx) {
 		c.Undecided("anchor:matcher.opt.Match", token.NoPos, "not found")
 		return
 	}
+	// the scan itself steps over a token only on a sub-matcher's count, or over the lone "-"
+	{
+		c.Mark(top)
+		var targs *ssa.Parameter
+		for _, p := range top.Params {
+			if isStringSlice(p.Type()) {
+				targs = p
+			}
+		}
+		ir.Instrs(top, func(in ssa.Instruction) {
+			phi, ok := in.(*ssa.Phi)
+			if !ok {
+				return
+			}
+			if b, isB := phi.Type().Underlying().(*types.Basic); !isB || b.Kind() != types.Int {
+				return
+			}
+			// the scan index: it indexes the vector
+			indexes := false
+			for _, u := range *phi.Referrers() {
+				if ia, isIA := u.(*ssa.IndexAddr); isIA && ia.X == ssa.Value(targs) && ia.Index == ssa.Value(phi) {
+					indexes = true
+				}
+			}
+			if !indexes {
+				return
+			}
+			for i, e := range phi.Edges {
+				if !phi.Block().Dominates(phi.Block().Preds[i]) {
+					continue
+				}
+				key := fmt.Sprintf("%s:step@%s", Q(top), relLine(c, top, e.Pos()))
+				bo, isBo := e.(*ssa.BinOp)
+				if !isBo || bo.Op != token.ADD || bo.X != ssa.Value(phi) {
+					c.Bad(key, e.Pos(), "the scan index is not advanced by adding to it")
+					continue
+				}
+				isCount := func(v ssa.Value) bool {
+					ex, isEx := v.(*ssa.Extract)
+					if !isEx || ex.Index != 1 {
+						return false
+					}
+					call, isCall := ex.Tuple.(*ssa.Call)
+					if !isCall {
+						return false
+					}
+					f := ir.Static(call)
+					return f != nil && f.Pkg == top.Pkg && f.Signature.Recv() != nil
+				}
+				counts := isCount(bo.Y)
+				if cphi, isPhi := bo.Y.(*ssa.Phi); isPhi && len(cphi.Edges) > 0 {
+					// the counts of the two sub-matchers merged into one variable
+					counts = true
+					for _, ce := range cphi.Edges {
+						if !isCount(ce) {
+							counts = false
+						}
+					}
+				}
+				if counts {
+					c.OK(key, e.Pos(), "advanced by the number of tokens a sub-matcher reports for the foreign occurrence")
+					continue
+				}
+				if one, isC := ir.ConstInt(bo.Y); isC && one == 1 {
+					lone := false
+					ir.Instrs(top, func(in2 ssa.Instruction) {
+						cmp, isCmp := in2.(*ssa.BinOp)
+						if !isCmp || (cmp.Op != token.EQL && cmp.Op != token.NEQ) {
+							return
+						}
+						if sv, isS := ir.ConstString(cmp.Y); isS && sv == "-" && ir.HoldsAt(cmp, cmp.Op == token.EQL, bo.Block()) {
+							lone = true
+						}
+					})
+					c.Check(lone, key, e.Pos(), "steps over one token only when it is the lone \"-\"", "the scan steps over a token by itself, without a sub-matcher having said how many tokens the occurrence occupies (a value behind it would be read as the next token)")
+					continue
+				}
+				c.Bad(key, e.Pos(), "the scan index is advanced by something other than a sub-matcher's count")
+			}
+		})
+	}
 	for _, call := range ir.Calls(top) {
 		fn := ir.Static(call)
 		if fn == nil || fn.Pkg != top.Pkg || fn.Signature.Recv() == nil || fn.Signature.Results().Len() != 3 {
@@ -1378,12 +1459,24 @@ func mat8(c *Ctx) {
 					if !okG {
 						problems = append(problems, "a separate value is recorded without being tested not to start with '-'")
 					}
+					if strNonEmptyAt(fn, r.val, r.mu.Block()) {
+						problems = append(problems, "a separate value is refused when it is empty (`-o \"\"` binds the empty string)")
+					}
 				} else {
 					kind = "attached"
 					cl.eq++
 					okG := strNonEmptyAt(fn, r.val, r.mu.Block())
 					if !okG {
 						problems = append(problems, "an attached/'=' value is recorded without being tested non-empty")
+					}
+					dashTested := notDashPrefixedAt(fn, r.val, r.mu.Block())
+					for _, t := range dashPrefixTests(fn, r.val) {
+						if ir.HoldsAt(t, false, r.mu.Block()) {
+							dashTested = true
+						}
+					}
+					if dashTested {
+						problems = append(problems, "an attached/'=' value is refused when it starts with '-' (`-n=-5`, `--ratio=-1e-3` are values, what strconv accepts)")
 					}
 				}
 			}
